@@ -26,7 +26,7 @@ CLAIMED = {
    ref="DESIGN.md §4 C18", note=TRUST+" Without the race tier, a missing lock around seam-free code shows only through its effects at statement granularity; 'no data race' proper is decided by the race tier (thorough). porcupine timeouts are inconclusive, never reported.",
    tech="deterministic simulation of goroutine interleavings (seeded scheduler over simulated sync primitives, pools and pipes), linearizability checking, deterministic race detection"),
  "C20": dict(engine="order-world", cat="exploration",
-   text="Seeded (base program, edit script) pairs committed as HEAD~ and HEAD of a scratch git repository (merge commits, dirty or linked work trees, submodule entries, executable files, several ways of naming the repository); cmd/thriftbreak's run() executed in readable and JSON mode under seeded map-iteration orders of the comparison and the compiler; oracles: the reported set equals an executable reference model of the five documented breaking rules (fields matched by id, declared type names compared as written), each diagnostic attributed to the changed file, error exactly when something is reported, nothing for identical or compatible versions, same set across schedules and output modes.",
+   text="Seeded (base program, edit script) pairs committed as HEAD~ and HEAD of a scratch git repository (merge commits, dirty or linked work trees, submodule entries, executable files, several ways of naming the repository); cmd/thriftbreak's run() executed in readable and JSON mode under seeded map-iteration orders of the comparison and the compiler; oracles: the reported set equals an executable reference model of the five documented breaking rules (fields matched by id, declared type names compared as written), each diagnostic attributed to the changed file, error exactly when something is reported, nothing for identical or compatible versions, same set across schedules and output modes; the same command line through main() (log.Fatalf and os.Exit seamed) ends with a non-zero exit status exactly when the pair has a documented breaking change, including pairs with exactly 256 or 512 diagnostics.",
    ref="DESIGN.md §4 C20", note=TRUST+" The reference model progen.Breaking is trusted; renames are not generated; HEAD always compiles; a reported line is matched by file and leading quoted names, not wording.",
    tech="deterministic simulation of map-iteration order over the real linter on real two-commit git histories; reference model as oracle"),
  "C10": dict(engine="order-world", cat="exploration",
